@@ -51,6 +51,18 @@ def gen_events(r, n, j):
             lat, lon, dep, mag = float(r.uniform(-90, 90)), float(r.uniform(-180, 180)), float(r.uniform(0, 700)), float(r.uniform(0, 9.5))
         if r.uniform() < 0.08:
             lat, lon = float(r.choice([90.0, -90.0, 0.0, -0.0])), float(r.choice([180.0, -180.0, 0.0, -0.0]))
+        if r.uniform() < 0.12 or (i == 0 and j % 5 == 0):
+            # values whose shortest text form uses exponent notation (next to the prime meridian / equator / surface; tiny magnitudes)
+            tiny = [1e-05, -2.5e-07, 3.25e-09, -1e-12, 5e-324, 1.5e-05]
+            which = int(r.integers(0, 4)) if i else 1
+            if which == 0:
+                lat = float(r.choice(tiny))
+            elif which == 1:
+                lon = float(r.choice(tiny))
+            elif which == 2:
+                dep = abs(float(r.choice(tiny)))
+            else:
+                mag = abs(float(r.choice(tiny)))
         ev.append((eid, ms, lat, lon, dep, mag))
     return ev
 
